@@ -227,7 +227,22 @@ func Conclude(cfg *Config, sum *Summary) int {
 		// reproduce once linearly, without the explorer, before believing it
 		rcfg := *cfg
 		rcfg.Fixture.Variant = v.Variant
-		fs, err := ReplayLinear(&rcfg, v.Root, v.Trace)
+		var fs []Finding
+		var err error
+		if v.Root == "K" {
+			// keeper-level product case: pure function of its input, re-evaluated by re-running the product
+			var again []foundViolation
+			if cfg.Property == "C10" {
+				_, again = c10kAll()
+			} else {
+				_, again = c12kAll()
+			}
+			for _, a := range again {
+				fs = append(fs, a.Finding)
+			}
+		} else {
+			fs, err = ReplayLinear(&rcfg, v.Root, v.Trace)
+		}
 		repro := false
 		for _, f := range fs {
 			if f.Sig() == v.Sig() {
